@@ -32,6 +32,7 @@ def shiftX (d : Nat) : XOp → XOp
   | .newholder o r => .newholder (sh d o) (sh d r)
   | .clone o s deep => .clone (sh d o) (sh d s) deep
   | .adopt o s f => .adopt (sh d o) (sh d s) f
+  | .unlist f s t => .unlist f (sh d s) (sh d t)
 
 def runX (q : Quirks) (st : DSt) (ops : List XOp) : DSt := runXS schema q st ops
 
